@@ -94,6 +94,7 @@ type guardTr struct {
 	loopInit []string               // initial value of the loop variable of every `for i := e; …`
 	loops    []string    // loop conditions
 	updates  map[string][]string   // Updates: variable -> "(keep, delta)" per assignment
+	inits    map[string][]string   // Updates: variable -> the value of each defining statement (`x := e`, `var x int`)
 	slices   []string              // Slices: "[lo, hi]" per slice expression, in source order
 	rets     []retCase             // Rets: condition of a success return -> rendered results
 	args     map[string][]retCase  // Args: callee -> (path condition, rendered arguments) per call
@@ -445,6 +446,7 @@ func (tr *guardTr) tracked(name string) bool {
 		if u == name {
 			if tr.updates == nil {
 				tr.updates = map[string][]string{}
+				tr.inits = map[string][]string{}
 			}
 			return true
 		}
@@ -465,12 +467,18 @@ func (tr *guardTr) recordUpdate(s *ast.AssignStmt) {
 		}
 		if len(s.Lhs) != len(s.Rhs) {
 			// `x, err = f()`: the value comes from a call
-			tr.updates[id.Name] = append(tr.updates[id.Name], "(0, untranslated_call_result)")
+			if s.Tok == token.DEFINE {
+				tr.inits[id.Name] = append(tr.inits[id.Name], "untranslated_call_result")
+			} else {
+				tr.updates[id.Name] = append(tr.updates[id.Name], "(0, untranslated_call_result)")
+			}
 			continue
 		}
 		v, _ := tr.intExpr(s.Rhs[i])
 		switch s.Tok {
-		case token.ASSIGN, token.DEFINE:
+		case token.DEFINE:
+			tr.inits[id.Name] = append(tr.inits[id.Name], v)
+		case token.ASSIGN:
 			tr.updates[id.Name] = append(tr.updates[id.Name], "(0, "+v+")")
 		case token.ADD_ASSIGN:
 			tr.updates[id.Name] = append(tr.updates[id.Name], "(1, "+v+")")
@@ -610,6 +618,17 @@ func (tr *guardTr) walk(b *ast.BlockStmt, path string, top bool) {
 		case *ast.DeclStmt:
 			if gd, ok := s.Decl.(*ast.GenDecl); ok {
 				for _, sp := range gd.Specs {
+					if vs, ok := sp.(*ast.ValueSpec); ok {
+						for i, n := range vs.Names {
+							if tr.tracked(n.Name) {
+								v := "0" // `var x int`
+								if i < len(vs.Values) {
+									v, _ = tr.intExpr(vs.Values[i])
+								}
+								tr.inits[n.Name] = append(tr.inits[n.Name], v)
+							}
+						}
+					}
 					if vs, ok := sp.(*ast.ValueSpec); ok && len(vs.Names) == 1 && len(vs.Values) == 1 {
 						tr.assign([]ast.Expr{vs.Names[0]}, vs.Values, true)
 					} else if ok {
@@ -978,7 +997,9 @@ func genGuardFile(file string, sites []guardSite) {
 			}
 		}
 		for _, u := range s.Updates {
-			fmt.Fprintf(&sb, "/-- every assignment to `%s`, in source order, as (keep, delta): the new value is keep * old + delta -/\ndef %s_updates_%s%s : List (Int × Int) := %s\n\n", u, s.Name, u, params, leanBoolList(tr.updates[u]))
+			tr.tracked(u)
+			fmt.Fprintf(&sb, "/-- the value `%s` is defined with (`%s := e`, `var %s int` = 0) -/\ndef %s_init_%s%s : List Int := %s\n\n", u, u, u, s.Name, u, params, leanBoolList(tr.inits[u]))
+			fmt.Fprintf(&sb, "/-- every assignment to `%s` after its definition, in source order, as (keep, delta): the new value is keep * old + delta -/\ndef %s_updates_%s%s : List (Int × Int) := %s\n\n", u, s.Name, u, params, leanBoolList(tr.updates[u]))
 		}
 		if s.Slices {
 			fmt.Fprintf(&sb, "/-- the bounds `[lo, hi]` of every slice expression `x[lo:hi]` of the function, in source order (-1: absent) -/\ndef %s_slices%s : List (List Int) := %s\n\n", s.Name, params, leanBoolList(tr.slices))
